@@ -40,8 +40,8 @@ pub const E: [&str; 17] = [
     "1E308",
     "-1E308",
 ];
-/// indices of the huge values (last in E): an argument position holding one of them may be "poisoned" for a block, see `sweep`
-const HUGE: [usize; 3] = [14, 15, 16];
+/// indices of the values that carry huge numbers (the range of extremes, the array literal, 1E15, 1E308, -1E308): an argument position holding one of them may be "poisoned" for a block, see `sweep`
+const HUGE: [usize; 5] = [12, 13, 14, 15, 16];
 /// Sheet2!A1:A3, the "range of extremes"
 const DATA: [&str; 3] = ["1E308", "1E308", "-1E308"];
 
@@ -359,8 +359,8 @@ fn sweep(max_arity: usize) -> SweepOut {
     let _ = std::fs::remove_dir_all(&dir);
     let _ = std::fs::create_dir_all(&dir);
     let exe = std::env::current_exe().expect("current_exe");
-    let watchdog = Duration::from_millis(std::env::var("VERIF_C08_WATCHDOG_MS").ok().and_then(|s| s.parse().ok()).unwrap_or(if max_arity >= 3 { 1000 } else { 500 }));
-    let per_chunk = if max_arity >= 3 { 3 } else { 12 };
+    let watchdog = Duration::from_millis(std::env::var("VERIF_C08_WATCHDOG_MS").ok().and_then(|s| s.parse().ok()).unwrap_or(if max_arity >= 3 { 1000 } else { 300 }));
+    let per_chunk = 6; // two producers (three shapes each) per worker process
     let mut next_block = 0usize;
     let mut chunk_id = 0usize;
     let mut slots: Vec<Option<Slot>> = (0..crate::env::workers()).map(|_| None).collect();
@@ -763,7 +763,7 @@ pub fn run(run: &mut Run) {
     run.sample(json!({"kind": "import", "target": 1, "spelling": "NaN"}));
     run.exhaustive = true;
     run.assume("a case that exhausts memory (RLIMIT_AS 4 GiB), overflows the stack or runs longer than the watchdog is recorded as resource_exhausted and not judged here (C11 judges crashes)");
-    run.assume("after a tuple with exactly one not-yet-poisoned huge argument (1E15, 1E308, -1E308) exhausts resources, later tuples of the same function and shape with that value at that position are assumed to exhaust them too and are skipped (skipped_assumed_exhausting); all other tuples run");
+    run.assume("after a tuple with exactly one not-yet-poisoned huge argument (1E15, 1E308, -1E308, the array {1E308,1}, the range of extremes) exhausts resources, later tuples of the same function and shape with that value at that position are assumed to exhaust them too and are skipped (skipped_assumed_exhausting); all other tuples run");
     run.assume("a panic inside evaluation is counted (panics_not_judged_here) but not judged by this property");
     run.assume("each case runs in a fresh two-sheet model; the formula is entered in Sheet1!A1 (CSE: A1:B2; dynamic: `(f)+{0,0}`)");
     run.assume("formatted text is checked for the first 64 numeric cells of a workbook; stored values for all cells");
